@@ -98,11 +98,17 @@ def run_job(job, workdir, gen_dir):
            "reason": "", "obligations": [], "seconds": 0.0, "backend": job.backend, "cmds": [], "bounded": job.bounded,
            "failed": []}
     defs = ["-D%s=%s" % (k, v) if v is not None else "-D%s" % k for k, v in sorted(job.defines.items())]
-    cmd1 = ["goto-cc", "--function", job.entry, "-DNDEBUG", "-DVERIF_CBMC", "-I", VERIF, "-I", gen_dir] + defs + [job.source, "-o", a]
+    cmd1 = ["goto-cc", "--function", job.entry, "--verbosity", "2", "-DNDEBUG", "-DVERIF_CBMC", "-I", VERIF, "-I", gen_dir] + defs + [job.source, "-o", a]
     rc, out, err, t1 = _run(cmd1, 120, 4)
     res["cmds"].append(" ".join(cmd1))
     if rc != 0:
         res["reason"] = "goto-cc failed: " + (err.decode(errors="replace") + out.decode(errors="replace"))[-1500:]
+        return res
+    # a function the extracted text calls without any declaration is C++ that no extraction rule mapped: CBMC would treat it as
+    # returning anything - neither a proof nor a refutation. Undecided, never a violation.
+    und = re.findall(r"function '(\w+)' is not declared", err.decode(errors="replace") + out.decode(errors="replace"))
+    if und:
+        res["reason"] = "extracted text calls undeclared function(s) %s: no extraction rule maps them" % ", ".join(sorted(set(und))[:6])
         return res
     src_gb = a
     if job.enforce or job.replace or job.loop_contracts:
